@@ -86,13 +86,8 @@ def run(ctx):
     # the wildcard rule of the specification has teeth: relaxing the
     # closest-encloser comparison breaks Soundness in the model
     for mut, prop in (MUTANTS if thorough else MUTANTS[:2]):
-        cfg = _cfg_variant("MC_Validator_mut", "MC_Validator_mut_%s_%d" % (mut, os.getpid()),
-                           {"Mut": '{"%s"}' % mut})
-        try:
-            r = ctx.tlc("MC_Validator", cfg, workers=2, label="mutant-" + mut, count=False,
-                        coverage=False)
-        finally:
-            os.remove(os.path.join(vlib.SPEC, cfg + ".cfg"))
+        r = ctx.tlc("MC_Validator", "MC_Validator_mut_" + mut, workers=2, label="mutant-" + mut,
+                    count=False, coverage=False)
         if r.violated not in prop.split("|"):
             raise vlib.ToolError("spec mutant %s not caught by %s (violated=%s)" % (mut, prop, r.violated))
         ctx.selftest("spec mutant %s violates %s" % (mut, prop), True)
@@ -273,19 +268,6 @@ def _wild_vacuity(path):
              for d in ("nsec", "nsec3", "optout") if (q, d) not in honest]
     if miss:
         raise vlib.ToolError("vacuity: wildcard scenarios never generated: %s" % miss)
-
-
-def _cfg_variant(base, name, subst):
-    """spec/<name>.cfg = spec/<base>.cfg with CONSTANT lines replaced (the
-    caller removes the file again: nothing stray stays in spec/)."""
-    import re
-    s = open(os.path.join(vlib.SPEC, base + ".cfg")).read()
-    for k, v in subst.items():
-        s, n = re.subn(r"(?m)^  %s = .*$" % k, "  %s = %s" % (k, v), s)
-        if n != 1:
-            raise vlib.ToolError("cfg variant: no constant %s in %s" % (k, base))
-    open(os.path.join(vlib.SPEC, name + ".cfg"), "w").write(s)
-    return name
 
 
 def _trace_stage(ctx, trace, tag="", extra=()):
